@@ -33,6 +33,7 @@ fn exp_sized<T>() -> (Layout, usize) {
 #[allow(clippy::too_many_arguments)]
 fn eval<B>(g: &mut Grid, case: &str, class: String, expect: Layout, refusal_ok: bool, construct: impl FnOnce() -> B, inspect: impl Fn(&B) -> Vec<(usize, usize, usize)>, release: impl FnOnce(B)) {
     vrt::begin_execution();
+    g.begin(case);
     let b = match catch(|| cap(construct)) {
         Ok(b) => b,
         Err(m) => {
